@@ -142,7 +142,7 @@ pub fn run(args: &Args) -> Value {
             }
             let before = read_slots(&m);
             let len = before.len();
-            let kind = rng.below(9);
+            let kind = rng.below(10);
             *hist.entry(kind).or_insert(0usize) += 1;
             total_mut += 1;
             // expected contents are built from the decisions the callback makes
@@ -227,6 +227,26 @@ pub fn run(args: &Args) -> Value {
                         m = FastOps::new_from_ops(nvars, ops.into_iter());
                         let mut e = expected.borrow_mut();
                         e.truncate(lastp + 1);
+                    }
+                }
+                9 => {
+                    // hinted sub-variable cursor, then ONE structural change at that position through mutate_p
+                    // (insertion on the sub-variables, removal or replacement of an operator inside them):
+                    // the cursor's last_p must be the nearest operator below, whatever variables it acts on
+                    if len > 0 {
+                        let k = 1 + rng.below(nvars as u64) as usize;
+                        let mut vs = pick_distinct(&mut rng, nvars, k);
+                        vs.sort_unstable();
+                        let a = rng.below(len as u64) as usize;
+                        let mut args = m.get_empty_args(SubvarAccess::Varlist(&vs));
+                        let hints: Vec<Option<usize>> = vs.iter().map(|_| None).collect();
+                        m.fill_args_at_p_with_hint(a, &mut args, &vs, hints.into_iter());
+                        let vs2 = vs.clone();
+                        let (_, args) = m.mutate_p(|_, op, t: ()| {
+                            let inside = op.map(|o| o.get_vars().iter().all(|v| vs2.contains(v))).unwrap_or(true);
+                            (if inside { decide(a, op, true, true, Some(&vs2)) } else { None }, t)
+                        }, a, (), args);
+                        m.return_args(args);
                     }
                 }
                 _ => {
